@@ -19,7 +19,7 @@ ID = "C12"
 K2 = "focal-vertex-is-min-endpoint"
 RULE = ("(1) C11's clean networks built 60..90% class-assortative, with targets (uniform / product / assortative over the excess classes) from which "
         "10..70% of the unordered pairings not present in the start network are deleted or set to 0.0 (both orientations together), sometimes a whole "
-        "row; (2) 2-/3-clique (and 2-/4-clique in thorough) networks with 2..4 joint-degree classes, N 300..450, start 40% assortative, target "
+        "row; in 35% of these runs the SAME rewiring object is then given another target (other pairings removed) for the SAME network through the rewirer's or the matrices' ejks setter and rewired again; (2) 2-/3-clique (and 2-/4-clique in thorough) networks with 2..4 joint-degree classes, N 300..450, start 40% assortative, target "
         "0.2*q q^T + 0.8*diag(q), CONVERGENCE_LIMIT = 0.75 |E|, vertex ids shuffled (must approach) or sorted by class (known finding K2); (2b) 'short-cross': hand-composed two-class triangle networks (60 % cross-class "
         "edges) towards a target with 80 % cross-class weight, only 0.18 |E| swaps, so that corners are still whole triangle corners; "
         "non-trivial = (1) >= 1 removed pairing that a proposal actually asked for, (2) |before - after| > 0.1; distinct = SHA-1 of the case")
@@ -27,9 +27,9 @@ ASSUMPTIONS = ["a pairing is unordered: (a,b) and (b,a) are removed together and
                "clause (2) is about typical behaviour: decided on workloads where the measured effect is > 20x the sampling noise, verdict = plain after < before",
                "violations of C11's clauses seen by the shared monitor are not C12's to report: such a run is counted inconclusive here"]
 HEADLINE = ["hard_rule_runs", "reused_object_runs", "created_edges", "accepted_swaps", "proposals", "numerator_missing_key", "numerator_zero_weight", "forbidden_pairings", "stopped_runs",
-            "approach_runs", "approach_decreased", "approach_sorted_ids_runs", "approach_sorted_ids_not_decreased"]
-REQUIRED = {"quick": {"created_edges": 500, "numerator_missing_key": 20, "numerator_zero_weight": 20, "approach_runs": 5, "forbidden_pairings": 50},
-            "thorough": {"created_edges": 20000, "numerator_missing_key": 500, "numerator_zero_weight": 500, "approach_runs": 30, "forbidden_pairings": 1000}}
+            "retargeted_runs", "retargeted_created_edges", "approach_runs", "approach_decreased", "approach_sorted_ids_runs", "approach_sorted_ids_not_decreased"]
+REQUIRED = {"quick": {"created_edges": 500, "numerator_missing_key": 20, "numerator_zero_weight": 20, "approach_runs": 5, "forbidden_pairings": 50, "retargeted_created_edges": 100},
+            "thorough": {"created_edges": 20000, "numerator_missing_key": 500, "numerator_zero_weight": 500, "approach_runs": 30, "forbidden_pairings": 1000, "retargeted_created_edges": 2000}}
 MAX_INCONCLUSIVE_FRACTION = 0.1
 SHARD_TIMEOUT = {"quick": 900, "thorough": 14400}
 HARD_CLAUSES = ("created-edge-joins-a-pairing-the-target-forbids", "returned-graph-contains-a-new-edge-on-a-forbidden-pairing")
@@ -56,19 +56,8 @@ def gen_cases(tier, seed):
     return cases
 
 
-def run_hard(case, res, reuse=None, rng=None):
-    from gcmpy import ToolsNames as TN
-    rng = rng or random.Random(case["seed"])
-    fam = rng.choice(list(c11.FAMILIES))
-    N = rng.randint(30, 90)
-    G, info, classes = c11.make_network(rng, fam, N, ids="shuffled", assort=rng.choice([0.6, 0.8, 0.9]))
-    names = info["names"]
-    why = check_clean(G)
-    if why:
-        raise RuntimeError("builder produced an unclean network: " + why)
-    kind = rng.choice(["uniform", "product", "assortative"])
-    T = c11.make_target(rng, G, names, kind)
-    present = reference_mixing(G, names)
+def forbid(rng, G, names, T, present):
+    """removes (deletes or zeroes) a random subset of the pairings no existing edge uses; returns how many pairings were removed"""
     removed = 0
     for t in names:
         keys = c11.excess_keys(G, names)[t]
@@ -88,6 +77,23 @@ def run_hard(case, res, reuse=None, rng=None):
                     else:
                         T[t][k] = 0.0
             removed += 1
+    return removed
+
+
+def run_hard(case, res, reuse=None, rng=None):
+    from gcmpy import ToolsNames as TN
+    rng = rng or random.Random(case["seed"])
+    fam = rng.choice(list(c11.FAMILIES))
+    N = rng.randint(30, 90)
+    G, info, classes = c11.make_network(rng, fam, N, ids="shuffled", assort=rng.choice([0.6, 0.8, 0.9]))
+    names = info["names"]
+    why = check_clean(G)
+    if why:
+        raise RuntimeError("builder produced an unclean network: " + why)
+    kind = rng.choice(["uniform", "product", "assortative"])
+    T = c11.make_target(rng, G, names, kind)
+    present = reference_mixing(G, names)
+    removed = forbid(rng, G, names, T, present)
     res.count("forbidden_pairings", removed)
     extra = {TN.CONVERGENCE_LIMIT: rng.choice([20, 100, 300]), TN.SEARCH_LIMIT: rng.choice([5, 25])}
     base = {"kind": "hard", "family": fam, "N": N, "classes": classes, "target": kind, "forbidden_pairings": removed,
@@ -109,6 +115,29 @@ def run_hard(case, res, reuse=None, rng=None):
         else:
             res.inconclusive("monitor aborted on a C11 clause: " + clause)
     res.nontrivial = res.nontrivial or (removed >= 1 and (mon.reach.get("numerator_missing_key", 0) + mon.reach.get("numerator_zero_weight", 0)) >= 1)
+    if reuse is None and res.verdict == "held" and rng.random() < 0.35 and getattr(mon, "obj", None) is not None and mon.returned:
+        # history: same rewiring object, SAME network, the target replaced (other pairings forbidden) through a setter; the rule
+        # must follow the target in force
+        T2 = c11.make_target(rng, G, names, rng.choice(["uniform", "product", "assortative"]))
+        removed2 = forbid(rng, G, names, T2, present)
+        how = rng.choice(["ejks-setter", "matrices-setter"])
+        base2 = dict(base, retargeted_through=how, forbidden_pairings_now=removed2)
+        mon2 = c11.run_rewire(res, G, names, T2, extra, seed=case["seed"] + 7, ctx=base2, cap=40000 if quick else 400000, stall=8000 if quick else 60000,
+                              reuse=mon.obj, retarget=how)
+        res.count("retargeted_runs")
+        res.count("forbidden_pairings", removed2)
+        res.count("accepted_swaps", mon2.accepted)
+        res.count("proposals", mon2.props)
+        res.count("created_edges", mon2.created)
+        res.count("retargeted_created_edges", mon2.created)
+        for k, c in mon2.reach.items():
+            res.count(k, c)
+        if mon2.violation is not None:
+            clause, detail = mon2.violation
+            if clause in HARD_CLAUSES:
+                res.violate(clause, ctx=base2, **detail)
+            else:
+                res.inconclusive("monitor aborted on a C11 clause: " + clause)
     if reuse is None and res.verdict == "held" and rng.random() < 0.3 and getattr(mon, "obj", None) is not None:
         # history: same rewiring object, another network and another target with other forbidden pairings
         run_hard(case, res, reuse=mon.obj, rng=rng)
